@@ -46,9 +46,11 @@ func normIndex(i, length, limit int64) (int64, bool) {
 	return i, true
 }
 
+// hasObj: the display of objects (field order) and of ranges inside other values (the two
+// backends render them differently; other properties own that) is not asserted here.
 func hasObj(t hs.Type) bool {
 	switch t.K {
-	case hs.KObj, hs.KAnyObj:
+	case hs.KObj, hs.KAnyObj, hs.KRange:
 		return true
 	case hs.KList, hs.KOpt:
 		return hasObj(*t.Elem)
